@@ -268,7 +268,7 @@ def api_correspondence(ctx, tg, tga):
     for (cid, n, dt, pmin, pmax, zb, fpt) in fps[: (24 if quick else 300)]:
         ok = model[cid]["ok"][0][0] == "1"
         if dt == 4 and model[cid]["guard"][0][0] != "1":
-            # main refuses such an axis (fix 5c817d5); the constructor is not reachable with it
+            # main refuses such an axis (fix de00324); the constructor is not reachable with it
             ctx.count("fp:outside-main-guard")
             if ok and n >= 4:
                 pass                      # guard stricter than necessary here: harmless
@@ -364,7 +364,7 @@ def gen_config(rng, i, quick):
 
 def predict(cfg, m_sizes, m_pad, m_fp):
     """{function substring: cause} for the defects the model says this configuration can reach: none on the tree after
-    the fixes (padded length d13e4f1, Fokker-Planck guard 5c817d5, kick conversion fbbfcf6, tracking clamp f5243ba)"""
+    the fixes (padded length 899923d, Fokker-Planck guard de00324, kick conversion fbbfcf6, tracking clamp f5243ba)"""
     return {}
 
 
